@@ -42,11 +42,15 @@ func LogHandler(next http.Handler) http.Handler {
 			code: http.StatusOK,
 		}
 
+		// 不要改写服务器自身请求对象的 Body：net/http 在写响应头时依据它判断
+		// Expect: 100-continue 的请求体是否已被读取，改写后会等客户端上传完请求体才发出响应。
 		var dup io.ReadCloser
-		r.Body, dup = iox.DupReadCloser(r.Body)
-		next.ServeHTTP(&lrw, r.WithContext(context.WithValue(r.Context(), internal.LogContext, logs)))
-		r.Body = dup
-		logBrief(r, lrw.code, timer, logs)
+		nr := r.WithContext(context.WithValue(r.Context(), internal.LogContext, logs))
+		nr.Body, dup = iox.DupReadCloser(r.Body)
+		next.ServeHTTP(&lrw, nr)
+		lr := r.WithContext(r.Context())
+		lr.Body = dup
+		logBrief(lr, lrw.code, timer, logs)
 	})
 }
 
@@ -62,11 +66,13 @@ func DetailedLogHandler(next http.Handler) http.Handler {
 		}, &buf)
 
 		var dup io.ReadCloser
-		r.Body, dup = iox.DupReadCloser(r.Body)
 		logs := new(internal.LogCollector)
-		next.ServeHTTP(lrw, r.WithContext(context.WithValue(r.Context(), internal.LogContext, logs)))
-		r.Body = dup
-		logDetails(r, lrw, timer, logs)
+		nr := r.WithContext(context.WithValue(r.Context(), internal.LogContext, logs))
+		nr.Body, dup = iox.DupReadCloser(r.Body)
+		next.ServeHTTP(lrw, nr)
+		lr := r.WithContext(r.Context())
+		lr.Body = dup
+		logDetails(lr, lrw, timer, logs)
 	})
 }
 
